@@ -96,16 +96,18 @@ def fwdStep {n : Nat} (b : Bounds α n) (ds si v2next v2m : α) (p : Sample α n
     -- a segment is emitted only `if (dt > 0)`: a clamped speed that is decelerated further takes no time
     (Scalar.max eps (vi2 + nat 2 * ai * ds), if nat 0 < dt then some (mkSeg si vi ai dt) else none)
 
+/-- loop body of the forward pass: state = (`v2m`, grid index `i`, segments emitted so far) -/
+def fstep {n : Nat} (b : Bounds α n) (s0 ds : α) (v2max : List α)
+    (st : α × Nat × List (SegOut α)) (p : Sample α n) : α × Nat × List (SegOut α) :=
+  let i := st.2.1
+  let si := s0 + ds * nat i
+  let r := fwdStep b ds si (v2max.getD (i + 1) (nat 0)) st.1 p
+  (r.1, i + 1, match r.2 with | some sg => st.2.2 ++ [sg] | none => st.2.2)
+
 /-- forward pass over the grid points `i = 0..N−1` given `v2max(0..N)` -/
 def forward {n : Nat} (b : Bounds α n) (s0 ds startVel : α) (v2max : List α)
     (samples : List (Sample α n)) : List (SegOut α) :=
-  let v2m0 := Scalar.min (startVel * startVel) (v2max.headD (nat 0))
-  let step := fun (st : α × Nat × List (SegOut α)) (p : Sample α n) =>
-    let i := st.2.1
-    let si := s0 + ds * nat i
-    let r := fwdStep b ds si (v2max.getD (i + 1) (nat 0)) st.1 p
-    (r.1, i + 1, match r.2 with | some sg => st.2.2 ++ [sg] | none => st.2.2)
-  (samples.foldl step (v2m0, 0, [])).2.2
+  (samples.foldl (fstep b s0 ds v2max) (Scalar.min (startVel * startVel) (v2max.headD (nat 0)), 0, [])).2.2
 
 /-- `t_max` of the returned map: running sum of the segment durations -/
 def totalTime (segs : List (SegOut α)) : α := segs.foldl (fun t sg => t + sg.dt) (nat 0)
